@@ -654,6 +654,7 @@ fn one_run(i: usize, run_seed: u64, b: &Budget) -> RunOut {
         let th = sched::trace_hash(&ex.trace);
         if ex.nondeterministic {
             out.count("probe.baton_taken_from_thread_blocked_outside_model", 1);
+            out.nondet = true;
         } else {
             log.u64(th);
             log.u64(ex.choices.len() as u64);
